@@ -20,6 +20,9 @@ class Device(ABC):
 
 
 class OutMixIn:
+    # not connected until `out` is assigned (no subclass calls __init__ here)
+    _out: Optional["Device"] = None
+
     def __init__(self):
         self._out = None
 
